@@ -28,7 +28,11 @@ static void gen_solve(const GenCtx &ctx, Case &c, int viewpct) {
   c.set("m", m).set("n", n).set("w", w).set("cutoff", g::cutoff());
   g::rankpat(c, "A", m, n);
   g::place(c, "A", viewpct);
-  std::string kind = g::wpick<std::string>({{4, "consistent"}, {3, "flip"}, {m < n ? 3 : 0, "padding"}, {2, "random"}, {1, "zero"}});
+  std::string kind = g::wpick<std::string>({{4, "consistent"}, {3, "flip"}, {m < n ? 3 : 0, "padding"}, {2, "random"}, {1, "zero"}, {1, "periodic"}});
+  if (kind == "periodic") {  // error rows repeating one 64-bit pattern in two full words: needs at least three words per row
+    w = g::pick<int>({129, 130, 191, 192, 193, 200, 256, 257, 320});
+    c.set("w", w);
+  }
   c.sets("bkind", kind);
   c.setu("b.seed", g::seed());
   int rows = std::max(m, n);
@@ -52,6 +56,22 @@ static Verdict exec_solve(const Case &c) {
     fill_dense(X0, c.u("b.seed"));
     B = mul(Apad, X0);
     if (kind != "consistent") B.flip((int)c.i("fi"), (int)c.i("fj"));
+  } else if (kind == "periodic") {
+    // B = A*X0 + E, every row of E carries one 64-bit pattern in two of the full words and nothing in the last word, so
+    // that every combination of error rows is again of that form (value-structured inconsistency)
+    Mat X0(n, w);
+    fill_dense(X0, c.u("b.seed"));
+    B = mul(Apad, X0);
+    u64 s = c.u("b.seed") ^ 0x9e3779b97f4a7c15ULL;
+    int nfull = B.W - 1, ne = 1 + (int)(splitmix64(s) % 3);
+    for (int e = 0; e < ne; e++) {
+      int i = (int)(splitmix64(s) % (u64)rows);
+      if (e == 0 && m < rows && (splitmix64(s) & 1)) i = m + (int)(splitmix64(s) % (u64)(rows - m));
+      u64 p = splitmix64(s) | 1;
+      int a = (int)(splitmix64(s) % (u64)nfull), b = (a + 1 + (int)(splitmix64(s) % (u64)(nfull - 1))) % nfull;
+      B.row(i)[a] ^= p;
+      B.row(i)[b] ^= p;
+    }
   } else if (kind == "random") {
     fill_dense(B, c.u("b.seed"));
   }
@@ -99,7 +119,7 @@ static RegisterOp r_s1({"mzd_pluq_solve_left", "C06", 0, nullptr, exec_solve, tr
 static Case gen_C06(const GenCtx &ctx) { return gen_from_ops("C06", ctx, 15); }
 static RegisterProp p_C06({"C06",
                            "random: (m,n) in the three orders x rank-structured A incl. zero A x right-hand side kind (consistent by "
-                           "construction B = A*X0, consistent with one flipped bit, inconsistency only in a padding row incl. the "
+                           "construction B = A*X0, consistent with one flipped bit, word-periodic error rows (>= 129 columns), inconsistency only in a padding row incl. the "
                            "first, random, zero) x width x cutoff x {mzd_solve_left, mzd_pluq + mzd_pluq_solve_left}; oracle = model: "
                            "solvable iff rank([A_pad|B]) == rank(A_pad), return value 0 iff solvable, and then A_pad*X == B0; "
                            "non-trivial iff A lacks full column rank or B is inconsistent; distinct by recipe hash",
